@@ -119,3 +119,7 @@ func VerifC10BuiltInNumFmt() map[int]string {
 	}
 	return m
 }
+
+// VerifC10Options returns the options the file was opened with (what
+// formattedValue hands to format).
+func (f *File) VerifC10Options() *Options { return f.options }
